@@ -767,6 +767,79 @@ ensures
 @*/
 }
 
+// `vec![x; n]` (R9): n copies of x.  TRUSTED std semantics, named through two wrappers.
+#[verifier::external_body]
+pub fn verif_vec_none<T>(n: usize) -> (r: Vec<Option<T>>)
+    ensures r@.len() == n, forall|i: int| 0 <= i < n ==> (#[trigger] r@[i]) is None
+{ unimplemented!() }
+#[verifier::external_body]
+pub fn verif_vec_empty_maps<K, V>(n: usize) -> (r: Vec<BTreeMap<K, V>>)
+    ensures r@.len() == n, forall|i: int| 0 <= i < n ==> (#[trigger] r@[i])@ == Map::<K, V>::empty()
+{ unimplemented!() }
+// #[derive(Default)] on SlotVotedStake / SlotCertificates: TRUSTED to be all-zero / all-empty.
+impl SlotVotedStake {
+    #[verifier::external_body]
+    pub fn default() -> (r: SlotVotedStake)
+        ensures r.notar@ == Map::<BlockHash, Stake>::empty(), r.notar_fallback@ == Map::<BlockHash, Stake>::empty(),
+            r.skip.0 == 0, r.skip_fallback.0 == 0, r.finalize.0 == 0, r.notar_or_skip.0 == 0, r.top_notar.0 == 0
+    { unimplemented!() }
+}
+impl SlotCertificates {
+    #[verifier::external_body]
+    pub fn default() -> (r: SlotCertificates)
+        ensures r.notar is None, r.notar_fallback@.len() == 0, r.skip is None, r.fast_finalize is None, r.finalize is None
+    { unimplemented!() }
+}
+impl SlotVotes {
+/*@ extract src/consensus/pool/slot_state.rs :: impl SlotVotes/fn new
+props C04 C03
+ret r
+rewrite*[R9] `vec![None; num_validators]` => `verif_vec_none(num_validators)`
+rewrite[R9] `vec![BTreeMap::new(); num_validators]` => `verif_vec_empty_maps(num_validators)`
+ensures
+        // [C04.fresh_slot_holds_no_votes]
+        r.shape(num_validators as int),
+        forall|v: int| 0 <= v < num_validators ==> (#[trigger] r.vv(v)) == (VV { notar: None, nf: Set::<BlockHash>::empty(), skip: false, skip_fb: false, fin: false }),
+@*/
+}
+impl SlotState {
+/*@ extract src/consensus/pool/slot_state.rs :: impl SlotState/fn new
+props C04 C03 C06
+ret r
+ensures
+        // [C04.fresh_slot_state_is_empty_and_well_formed C03.fresh_slot_state_is_empty_and_well_formed C06.fresh_slot_state_is_empty_and_well_formed]
+        // what the pool unit assumes of the state a slot gets on first use (its axiom_fresh_slot_state)
+        r.slot == slot && r.epoch_info == epoch_info,
+        r.votes.shape(r.nv()),
+        forall|v: int| 0 <= v < r.nv() ==> (#[trigger] r.votes.vv(v)) == (VV { notar: None, nf: Set::<BlockHash>::empty(), skip: false, skip_fb: false, fin: false }),
+        r.certificates.notar is None && r.certificates.skip is None && r.certificates.fast_finalize is None
+            && r.certificates.finalize is None && r.certificates.notar_fallback@.len() == 0,
+        r.parents@ == Map::<BlockHash, ParentStatus>::empty(),
+        r.voted_stakes.notar@ == Map::<BlockHash, Stake>::empty() && r.voted_stakes.notar_fallback@ == Map::<BlockHash, Stake>::empty()
+            && r.voted_stakes.skip.0 == 0 && r.voted_stakes.skip_fallback.0 == 0 && r.voted_stakes.finalize.0 == 0
+            && r.voted_stakes.notar_or_skip.0 == 0 && r.voted_stakes.top_notar.0 == 0,
+        r.sent_safe_to_notar@ == Set::<BlockHash>::empty() && r.pending_safe_to_notar@ == Set::<BlockHash>::empty() && !r.sent_safe_to_skip,
+        // (with SlotState::lemma_wf_of_an_empty_state: such a state is well formed whenever the epoch is)
+        r.wf_epoch() ==> r.s2n_inv(false),
+@*/
+}
+// what the pool assumes of a fresh slot state, from the postcondition of the real SlotState::new
+pub proof fn theorem_fresh_slot_state_is_well_formed(r: &SlotState)
+    requires
+        r.votes.shape(r.nv()),
+        forall|v: int| 0 <= v < r.nv() ==> (#[trigger] r.votes.vv(v)) == (VV { notar: None, nf: Set::<BlockHash>::empty(), skip: false, skip_fb: false, fin: false }),
+        r.voted_stakes.notar@ == Map::<BlockHash, Stake>::empty() && r.voted_stakes.notar_fallback@ == Map::<BlockHash, Stake>::empty()
+            && r.voted_stakes.skip.0 == 0 && r.voted_stakes.skip_fallback.0 == 0 && r.voted_stakes.finalize.0 == 0
+            && r.voted_stakes.notar_or_skip.0 == 0 && r.voted_stakes.top_notar.0 == 0,
+    ensures
+        // [C04.fresh_slot_state_is_empty_and_well_formed C03.fresh_slot_state_is_empty_and_well_formed]
+        r.wf_epoch() ==> r.wf(),
+{
+    if r.wf_epoch() { SlotState::lemma_wf_of_an_empty_state(r); }
+}
+impl SlotState {
+
+}
 impl SlotVotes {
 /*@ extract src/consensus/pool/slot_state.rs :: impl SlotVotes/fn skip_votes
 as skip_votes_body
